@@ -68,6 +68,11 @@ def universe(n_seeds, cap):
             for m in T.OPTIONAL[fam]:
                 a.setdefault(m, nd)
             add(fam, a)
+        # block layouts: every metric defined, the blocks of the version in every order
+        full = T.full_assignment(fam, -1)
+        for rev in (False, True):
+            for order in T.block_layouts(fam, full, rev)[::(1 if fam != "4.0" else 3)]:
+                add(fam, full, order)
         # the same bodies under the other minor version
         if fam == "3.0":
             for s, asg in seeds[:25]:
